@@ -437,6 +437,11 @@ func (t *tree) parseSwitch(token item, end itemType) ast.Node {
 			}
 			t.unexpected(tok, "between switch cases")
 		case itemCase, itemDefault:
+			// {default} is the last case: the renderer takes the first {default} it reaches, a JavaScript switch
+			// takes a matching case after it, and two default clauses are not JavaScript at all.
+			if n := len(cases); n > 0 && len(cases[n-1].Values) == 0 {
+				t.unexpected(tok, "after {default}, which must be the last case")
+			}
 			cases = append(cases, t.parseCase(tok))
 		case end:
 			t.expect(itemRightDelim, ctx)
